@@ -18,6 +18,7 @@ def step (_ : Unit) (toks : List String) : Unit × String :=
     | none => ((), "bad-op")
   | ["blockroot", _, _] => ((), "root-ok deser-ok mut-rejected")   -- glue contract: evaluated on the implementation
   | ["blockroot", _, _, _, _] => ((), "root-ok dup-rejected")     -- block repeating a transaction: root covers every hash; decoding refuses it
+  | ["rootpar", _, _, _, _] => ((), "ok")   -- concurrent calls: the model is a pure function; evaluated on the implementation
   | _ => ((), "bad-op")
 
 end BtcRootDrv
